@@ -364,10 +364,11 @@ pub fn run_scenario(
         let bkey = if bseed == 0 { 1000 + mi as u64 } else { bseed };
         let rvar = mb["rvar"].as_u64().unwrap_or(0);
         let zb = mb["zb"].as_u64().unwrap_or(0) as usize; // 1-based position whose blinding factors are all zero
+        let zk = mb["zk"].as_u64().unwrap_or(0) as usize; // ... or, if non-zero, only component zk (1-based) of that position
         let blinds: Vec<Vec<Scalar>> = (0..m)
             .map(|j| {
                 (0..t)
-                    .map(|k| if zb == j + 1 { Scalar::ZERO } else { hash_scalar(&[b"bppv-blinding", &ctx.run_seed.to_le_bytes(), &sidx.to_le_bytes(), &bkey.to_le_bytes(), &(j as u64).to_le_bytes(), &(k as u64).to_le_bytes()]) })
+                    .map(|k| if zb == j + 1 && (zk == 0 || zk == k + 1) { Scalar::ZERO } else { hash_scalar(&[b"bppv-blinding", &ctx.run_seed.to_le_bytes(), &sidx.to_le_bytes(), &bkey.to_le_bytes(), &(j as u64).to_le_bytes(), &(k as u64).to_le_bytes()]) })
                     .collect()
             })
             .collect();
